@@ -73,7 +73,7 @@ def degraded(heap, objs, root):
                 for k in n[3]:
                     visit(k, anc + [r])
             except Escape:
-                failing.append(objs[r]); keys.append('T:GObj'); return
+                failing.append(objs[r]); keys.append('T:' + type(objs[r]).__name__); return
             if n[2] == 'after':
                 failing.append(objs[r]); keys.append(r)
             return
@@ -112,7 +112,7 @@ def oracle(heap, objs, root, cfg, text, ws, ref_obj, ref_text):
         return 'a later fault-free print is affected: %r' % later[:200]
     if escapes or failing:
         # the SAME objects, faults removed, printed after the failed / aborted call: as a first call
-        saved = [(o, o.fault) for o in objs if isinstance(o, G.GObj)]
+        saved = [(o, o.fault) for o in objs if isinstance(o, G.GBase)]
         try:
             for o, _f in saved:
                 o.fault = 'none'
@@ -197,8 +197,8 @@ def wrapped_oracle(spec, cfg):
     bad = [m for m in ws if 'raised an exception' in m]
     # one warning per invocation of the failing printer (a commented dict value is rendered twice)
     tag = 'boom-7' if spec['fault'] == 'raise' else 'boom-6'
-    if not bad or any('gobj_printer' not in m or tag not in m or 'Falling back to default repr' not in m
-                      for m in bad):
+    if not bad or any(('gobj_printer' not in m and '_repr_pretty' not in m) or tag not in m or
+                      'Falling back to default repr' not in m for m in bad):
         return 'expected repr-fallback warnings naming the failing printer and its exception, got %r' % (
             [m[:120] for m in ws],)
     rest = [m for m in ws if 'raised an exception' not in m and NOSUPPORT not in m]
@@ -232,6 +232,9 @@ def main(tier):
         ref_text, _ = G.run_impl(ref_obj, {})
         reqs, impl, objsl = [], [], []
         for heap, root, cfg in cases:
+            if G.TIMEOUTS[0] >= G.MAX_TIMEOUTS:
+                cases = cases[:len(objsl)]      # the calls that did not return are reported; no more of them
+                break
             objs = G.build(heap)
             objsl.append(objs)
             impl.append(G.run_impl(objs[root], cfg))
